@@ -2,7 +2,8 @@
 
  impl -> spec: programs that grow values (loops that square, add, hash, shift-or a running value; idiom contracts;
                control-flow programs) run on the real VM under value-size limits from 1 to 1000; every node of every
-               value the VM produced - and of its constant-folded form - is measured (recorded size() vs. nodes
+               value the VM produced - of its constant-folded form, of the form the type checker's lifting passes
+               leave it in, and of that form folded - is measured (recorded size() vs. nodes
                actually contained), and ValueTrace.tla checks Inv_C18_Accounting (recorded = contained, everywhere) and
                Inv_C18_Limit (instruction results have at most `limit` nodes).
 """
@@ -38,8 +39,8 @@ def run(tier, seed):
     log(f"[C18] {info['programs']} programs, {info['values']} values, {info['opaque_leaves_seen']} opaque leaves seen")
     cov = {"evaluations": info["programs"], "distinct_nontrivial": info["programs"],
            "rule": "one run per (generated program, value-size limit in {1,2,3,5,8,16,20,50,64,100,250,251,1000}); "
-                   "non-trivial: every program executes and produces values; all nodes of all values are measured",
-           "values_measured": info["values"], "opaque_leaves_seen": info["opaque_leaves_seen"],
+                   "non-trivial: every program executes and produces values; all nodes of all values are measured, as produced, folded, lifted and lifted-then-folded",
+           "values_measured": info["values"], "lifted_values_measured": info.get("lifted_values", 0), "opaque_leaves_seen": info["opaque_leaves_seen"],
            "states": tv.tlc.distinct, "transitions": tv.tlc.generated, "traces_validated_against_impl": info["programs"],
            "samples": [{k: s[k] for k in ("hex", "limit", "values")}]}
     return v.finish("model_checking", cov, ["TLC", "sizes are read through size() and children() of the public value API"])
